@@ -72,14 +72,14 @@ type c15Checker struct {
 	ctx *Ctx
 	res *Result
 	// oracle batch for fragments in mode "align"
-	reqs    []string
-	reqImpl [][]string // implementation's output lines
-	reqIn   [][]string
-	reqActs []int
-	reqBad  []bool // the property itself already failed on this case
-	distinct map[string]bool
-	deferred []c15Deferred
-	nsamples map[string]int
+	reqs         []string
+	reqImpl      [][]string // implementation's output lines
+	reqIn        [][]string
+	reqActs      []int
+	reqBad       []bool // the property itself already failed on this case
+	distinct     map[string]bool
+	deferred     []c15Deferred
+	nsamples     map[string]int
 	lastFailKeys []string // keys raised by the last property() call
 }
 
@@ -972,7 +972,7 @@ func (c *c15Checker) savCase(lines []string, varname, space, op string) {
 // inputs that once showed a defect or a disagreement; always run first
 var c15Corpus = [][]string{
 	{"LONG_VARNAME_1=\tx", "A=\t" + "123456789012345678901234567890123456789012345678901234567890"}, // DESIGN 8-8
-	{"X=\tv \\", "        a\\\\\\", "\tw"},                                                   // backslash run before the continuation
+	{"X=\tv \\", "        a\\\\\\", "\tw"},                                                          // backslash run before the continuation
 	{"V != "},
 	{"#VAR =\tvalue", "OTHER=\tx"},
 }
